@@ -28,6 +28,8 @@ CLAUSES = {
     "B.err.truthful": "for every evaluation j: err_j == deviation of the combined value after evaluation j from the reference, relative (absolute for a zero "
                       "reference), in the chosen norm (rel 1e-9; accepted forms: p-norm or p-mean of the component-wise relative deviation, or ||diff||_p/||ref||_p); "
                       "the value after the last evaluation is the returned result",
+    "B.err.convention": "vector valued integrand, norm 1 or 2: the error for the zero reference uses the same form (p-norm or p-mean) of the deviation vector as the "
+                        "error of the same configuration for a non-zero reference (companion run with reference (1,..,1), first evaluation)",
     "B.count.truthful": "for every evaluation j: n_j == number of distinct points at which the integrand has been evaluated so far; same for get_total_num_points() after the run",
 }
 
@@ -146,6 +148,20 @@ def check_run(ctx, case):
     last_ok = E >= 1 and close(res, log["evals"][-1]["result"], rel=0, abs_=0)
     ctx.check("B.err.truthful", not bad and last_ok, S_ERR, "%s-norm%s-%s" % (st, p, case["refkind"]),
               "reported error vs own deviation (index, reported, accepted): %s; returned result equals value after last evaluation: %s" % (bad[:3], last_ok))
+    # one norm convention for zero and non-zero references (only where the accepted forms differ: vector valued, finite p)
+    if case["refkind"] == "zero" and len(case["comps"]) > 1 and p != "inf" and E >= 1 and not bad:
+        with ctx.guard("B.err.convention", S_ERR, st + "-raises"):
+            s2, eo2, _ = dc.build(cfg, case["comps"], [1.0] * len(case["comps"]))
+            r2 = dc.run_adaptive(s2, eo2, lmin, lmax, -1.0, 0, 1)      # stops after the first evaluation
+            names = ["plain", "mean"]
+            c_non = dc.pnorm_candidates((1.0 - r2[3]) / 1.0, p)
+            forms_non = {n for n, c in zip(names, c_non) if close(r2[5][0], c, rel=1e-9, abs_=1e-13)}
+            c_zero = dc.pnorm_candidates(log["evals"][0]["result"], p)
+            forms_zero = {n for n, c in zip(names, c_zero) if close(errs[0], c, rel=1e-9, abs_=1e-13)}
+            distinguishable = not close(c_zero[0], c_zero[1], rel=1e-6, abs_=1e-12) and not close(c_non[0], c_non[1], rel=1e-6, abs_=1e-12)
+            if distinguishable and forms_non and forms_zero:
+                ctx.check("B.err.convention", bool(forms_non & forms_zero), S_ERR, "%s-norm%s-zero-vs-nonzero" % (st, p),
+                          "error for a non-zero reference is the %s of the deviation, for the zero reference the %s" % (sorted(forms_non), sorted(forms_zero)))
     # truthful point count
     seen = [ev["seen"] for ev in log["evals"]]
     total = None
@@ -235,8 +251,24 @@ def gen_limits(ctx, npts, errs, refkind=None):
     return tol, mx, mn
 
 
+def anchor_cases():
+    """Fixed cases: vector valued integrand, zero reference, norms 1 and 2 (the two error branches must share one norm convention)."""
+    out = []
+    for st, norm in (("dimwise", 2), ("extend", 1), ("cell", 2)):
+        cfg = {"strategy": st, "a": [0.0, 0.0], "b": [1.0, 1.0], "norm": norm, "opts": {}}
+        cfg["grid"] = {"type": "GlobalTrapezoidal" if st == "dimwise" else "Trapezoidal", "boundary": True}
+        if st == "extend":
+            cfg["opts"] = {"version": 0, "number_of_refinements_before_extend": 2}
+        out.append({"kind": "run", "cfg": cfg, "comps": [["corner", [1.0, 3.0]], ["gauss", [6.0, 9.0], [0.3, 0.6]], ["osc", [2.0, 1.0], 0.2]],
+                    "ref": [0.0, 0.0, 0.0], "refkind": "zero", "tol": 1e2, "max": None, "min": 60})
+    return out
+
+
 def run(ctx):
     ctx.exhaustive = False
+    for case in anchor_cases():
+        ctx.case(case, nontrivial=True)
+        check_run(ctx, case)
     quick = ctx.quick()
     per_cfg = 8 if quick else 12
     stats = {}
